@@ -85,13 +85,11 @@ def detectors_alive(ctx, rule, which):
             from . import cfg
             fl = Flow(f, Roles(f), follow_control=False, ignore_len=True)
             dd = fl.deps_of(b[0])
-            tcd = cfg.transitive_control_deps(b[0], acyclic=True)
-            for pb in pat.panic_blocks(b[0]):
-                for (sb, tgt) in tcd[pb]:
-                    t = b[0].blocks[sb]["term"]
-                    if t["k"] == "switch" and t["discr"]["k"] in ("copy", "move"):
-                        if any(x[0] == "param" and x[1] == 1 for x in dd["close"](("n", t["discr"]["place"]["l"], None))):
-                            ok = True
+            for sb, blk in enumerate(b[0].blocks):
+                t = blk["term"]
+                if not blk["cleanup"] and t["k"] == "switch" and t["discr"]["k"] in ("copy", "move"):
+                    if any(x[0] == "param" and x[1] == 1 for x in dd["close"](("n", t["discr"]["place"]["l"], None))):
+                        ok = ok or bool(pat.panic_blocks(b[0]))
         res["value-panic"] = ok
     for k in sorted(which):
         ctx.ob(rule, "detector `%s` fires on the fixtures crate (zero-count rule is not vacuous)" % k, bool(res.get(k)), "fixtures", "detector-dead:" + k,
